@@ -128,7 +128,7 @@ def int_arg(val: Any, default: Optional[int] = None) -> int:
     """Return `val` as an int or `default` if `val` can't be cast to an int."""
     try:
         return to_int(val)
-    except ValueError as err:
+    except (ValueError, OverflowError) as err:
         if default is not None:
             return default
         raise FilterArgumentError(
@@ -187,7 +187,7 @@ def decimal_arg(
 
         try:
             return Decimal(val)
-        except ValueError as err:
+        except (ValueError, ArithmeticError) as err:
             if default is not None:
                 return default
             raise FilterArgumentError(
@@ -211,7 +211,8 @@ def math_filter(_filter: FilterT) -> FilterT:
 
         try:
             return _filter(val, *args, **kwargs)
-        except TypeError as err:
+        except (TypeError, ValueError, ArithmeticError) as err:
+            # For example, rounding NaN or infinity, or decimal arithmetic on them.
             raise FilterArgumentError(err, token=None) from err
 
     return wrapper
